@@ -33,6 +33,27 @@ Theorem C09_at_most_n_calls : forall (Ind R E : Type) (cm : op R (list Ind) Ind 
 Proof. exact @calls_at_most. Qed.
 Print Assumptions C09_at_most_n_calls.
 
+(* stepping IS that chain of calls: the new population is exactly the children the calls returned, in call
+   order (every member was made by the child maker from the old population; none is an old individual) *)
+Theorem C09_new_population_is_the_children : forall (Ind R E : Type) (cm : op R (list Ind) Ind E) pop r children pop' r',
+  serial_next cm pop r = (inl children, pop', r') ->
+  length (calls cm (length pop) pop r) = length pop /\
+  map (fun c => fst (snd c)) (calls cm (length pop) pop r) = map inl pop'.
+Proof. exact @serial_children_are_the_calls. Qed.
+Print Assumptions C09_new_population_is_the_children.
+
+(* the error reported is the error of the LAST call that was made - a child maker's error, never swallowed *)
+Theorem C09_error_is_a_childs : forall (Ind R E : Type) (cm : op R (list Ind) Ind E) pop r e pop' r',
+  serial_next cm pop r = (inr e, pop', r') ->
+  exists k r_k, nth_error (calls cm (length pop) pop r) k = Some (r_k, (inr e, r')) /\
+                length (calls cm (length pop) pop r) = S k /\ k < length pop.
+Proof. exact @serial_error_is_a_childs. Qed.
+Print Assumptions C09_error_is_a_childs.
+
+Theorem C09_empty_population : forall (Ind R E : Type) (cm : op R (list Ind) Ind E) r, serial_next cm [] r = (inl [], [], r).
+Proof. exact @serial_empty. Qed.
+Print Assumptions C09_empty_population.
+
 (* the parallel variant, for every assignment of independent streams and every schedule admitted by the relation *)
 Theorem C09_par_len : forall (Ind R E : Type) (cm : op R (list Ind) Ind E) pop streams children pop',
   par_next_ok cm pop streams (POk children) pop' -> (forall r, In r streams -> exists c, child_of cm pop r = inl c) ->
